@@ -239,9 +239,11 @@ Proof.
   intros E0 Hn. unfold role_needs_rebuild in Hn. apply andb_true_iff in Hn. destruct Hn as [Hd Hn].
   apply negb_true_iff in Hd. unfold set_role, rebuild_role. rewrite E0, Hd. cbn [fst roles set_roles r_del].
   unfold upd. rewrite N.eqb_refl. intros Heq. injection Heq as Heq. revert Heq.
-  destruct c as [c|]; [destruct (set_eqb c _) eqn:Ec|]; cbn [r_xch] in *; intros Heq; subst rr0; cbn [r_ch r_xch] in *;
-    try discriminate.
-  rewrite set_eqb_refl in Ec. discriminate.
+  assert (Hnone : r_ch rr0 = None) by (destruct (r_ch rr0); [discriminate | reflexivity]).
+  destruct c as [c|]; [destruct (set_eqb c _) eqn:Ec|]; cbn [r_xch] in *; intros Heq.
+  - apply (f_equal r_ch) in Heq. cbn [r_ch] in Heq. congruence.
+  - apply (f_equal r_xch) in Heq. cbn [r_xch] in Heq. rewrite <- Heq, set_eqb_refl in Ec. discriminate.
+  - apply (f_equal r_ch) in Heq. cbn [r_ch] in Heq. congruence.
 Qed.
 
 (* the raced load is exactly the sequential "edit, then load": same answer, same persisted state *)
